@@ -275,10 +275,13 @@ func (b *batch) run(regTmpl, mainGo string) (res []*result, incon string) {
 		wd := filepath.Dir(p)
 		interp := func() outcome { return b.exec([]string{e.Origami(), p}, wd) }
 		comp := func() outcome { return b.exec([]string{b.app(), p}, wd) }
-		r.Interp = interp()
-		r.Comp = comp()
 		r.Status = stRan
-		if r.Interp.TimedOut || r.Comp.TimedOut {
+		r.Interp = interp()
+		if r.Interp.TimedOut {
+			return // undecidable (watchdog): no point in waiting for the other side as well
+		}
+		r.Comp = comp()
+		if r.Comp.TimedOut {
 			return
 		}
 		// The interpreter itself is not deterministic everywhere (Go map order reaches the
@@ -391,7 +394,7 @@ func normalise(s string) string {
 }
 
 func (b *batch) exec(argv []string, wd string) outcome {
-	r := lib.RunProc(lib.ProcSpec{Argv: argv, Dir: wd, Timeout: 120 * time.Second, Stdin: []byte{}})
+	r := lib.RunProc(lib.ProcSpec{Argv: argv, Dir: wd, Timeout: 40 * time.Second, Stdin: []byte{}})
 	o := outcome{Exit: r.Exit, TimedOut: r.TimedOut, RawStderr: r.Stderr}
 	if r.Err != nil {
 		o.TimedOut = true // cannot start: undecidable, treated like the watchdog
@@ -401,7 +404,7 @@ func (b *batch) exec(argv []string, wd string) outcome {
 		o.Crash = "go-crash@" + lib.PanicSite(r.Stderr)
 		if strings.Contains(r.Stderr, "goroutine stack exceeds") {
 			// runaway recursion: the frame that hits the limit depends on the stack layout
-			o.Crash = "go-crash:stack-overflow"
+			o.Crash = crashStackOverflow
 		}
 		if r.Signal != "" {
 			o.Crash += " signal " + r.Signal
@@ -427,13 +430,31 @@ func head(s string, n int) string {
 	return s
 }
 
+const crashStackOverflow = "go-crash:stack-overflow"
+
 func sameOutcome(a, b outcome) bool {
+	if a.Crash == crashStackOverflow && b.Crash == crashStackOverflow {
+		return true
+	}
 	return a.Stdout == b.Stdout && a.Stderr == b.Stderr && a.Exit == b.Exit && a.Crash == b.Crash && a.TimedOut == b.TimedOut
 }
 
 // compare returns "" when both sides agree, else the kind of disagreement and a detail.
 func compare(r *result) (kind, detail string) {
 	c, i := r.Comp, r.Interp
+	if c.Crash == crashStackOverflow && i.Crash == crashStackOverflow {
+		// runaway recursion on both sides: how much was printed before the Go stack limit was hit
+		// depends on the frame sizes of the two binaries; only the common part is comparable
+		n := len(c.Stdout)
+		if len(i.Stdout) < n {
+			n = len(i.Stdout)
+		}
+		n -= 256 // the tail may be cut inside a token that normalise() rewrites
+		if n > 0 && c.Stdout[:n] != i.Stdout[:n] {
+			return "stdout", firstDiff(i.Stdout[:n], c.Stdout[:n])
+		}
+		return "", ""
+	}
 	switch {
 	case c.Crash != i.Crash:
 		return "crash", fmt.Sprintf("compiled: %s; interpreted: %s; compiled stderr: %s", orNone(c.Crash), orNone(i.Crash), head(c.RawStderr, 300))
